@@ -9,6 +9,12 @@
 (*   {e:"fill", c, len0, len1}: a collection created with_capacity(c) (or  *)
 (*       on which reserve(c) returned) had length len0, and length len1    *)
 (*       after c further collision-free entries were inserted              *)
+(*   {e:"start", op}: (concurrent runs) a thread started a resize of the    *)
+(*       table while it was executing the public operation op: growth is   *)
+(*       started only by insert / try_insert / compute_if_present (whose    *)
+(*       bookkeeping looks at the threshold, as in the Java original),      *)
+(*       reserve / extend - never by remove, remove_entry, take, retain,    *)
+(*       retain_force, clear or a lookup                                    *)
 (* CapacityRules is also an action property of Flurry.tla (exhaustive).    *)
 (***************************************************************************)
 EXTENDS Naturals, Sequences, TLC, Json, IOUtils
@@ -39,11 +45,14 @@ FillOk(e) ==
   /\ (e.c = 0 /\ e.fresh = 1) => e.len0 = 0         \* capacity 0 allocates no table
   /\ (e.c > 0) => e.len0 \in Pow2
 
+Growers == {"insert", "try_insert", "compute", "reserve", "extend", "collect"}
+StartOk(e) == e.op \in Growers
+
 Init == tr \in 1..Len(Traces) /\ l = 1
 Next ==
   /\ l <= Len(Ev)
   /\ l' = l + 1 /\ UNCHANGED tr
-  /\ IF Ev[l].e = "op" THEN OpOk(Ev[l]) ELSE FillOk(Ev[l])
+  /\ IF Ev[l].e = "op" THEN OpOk(Ev[l]) ELSE IF Ev[l].e = "start" THEN StartOk(Ev[l]) ELSE FillOk(Ev[l])
 Spec == Init /\ [][Next]_vars
 Done == l > Len(Ev)
 Report ==
